@@ -11,6 +11,8 @@ import (
 	"sort"
 	"strings"
 	"time"
+
+	rt "github.com/jimsnab/go-redisemu/verifrt"
 )
 
 type (
@@ -184,6 +186,7 @@ func Open(name string) (*File, error)   { return OpenFile(name, O_RDONLY, 0) }
 
 //go:norace
 func OpenFile(name string, flag int, perm FileMode) (*File, error) {
+	rt.Touch(rt.FSGlobal)
 	name = clean(name)
 	n, ok := files[name]
 	if !ok {
@@ -239,6 +242,7 @@ func (f *File) Name() string { return f.name }
 
 //go:norace
 func (f *File) Write(p []byte) (int, error) {
+	rt.Touch(rt.FSGlobal)
 	if f.closed {
 		return 0, &PathError{Op: "write", Path: f.name, Err: ErrClosed}
 	}
@@ -263,6 +267,7 @@ func (f *File) WriteString(s string) (int, error) { return f.Write([]byte(s)) }
 
 //go:norace
 func (f *File) Read(p []byte) (int, error) {
+	rt.Touch(rt.FSGlobal)
 	if f.closed {
 		return 0, &PathError{Op: "read", Path: f.name, Err: ErrClosed}
 	}
@@ -289,12 +294,14 @@ func (f *File) Seek(offset int64, whence int) (int64, error) {
 
 //go:norace
 func (f *File) Sync() error {
+	rt.Touch(rt.FSGlobal)
 	record(Op{Kind: OpSync, Path: f.name})
 	return nil
 }
 
 //go:norace
 func (f *File) Truncate(size int64) error {
+	rt.Touch(rt.FSGlobal)
 	if int64(len(f.node.data)) > size {
 		f.node.data = f.node.data[:size]
 	}
@@ -304,6 +311,7 @@ func (f *File) Truncate(size int64) error {
 
 //go:norace
 func (f *File) Close() error {
+	rt.Touch(rt.FSGlobal)
 	if f.closed {
 		return &PathError{Op: "close", Path: f.name, Err: ErrClosed}
 	}
@@ -317,6 +325,7 @@ func (f *File) Stat() (FileInfo, error) { return memInfo{name: base(f.name), siz
 
 //go:norace
 func Rename(oldpath, newpath string) error {
+	rt.Touch(rt.FSGlobal)
 	oldpath, newpath = clean(oldpath), clean(newpath)
 	n, ok := files[oldpath]
 	if !ok {
@@ -330,6 +339,7 @@ func Rename(oldpath, newpath string) error {
 
 //go:norace
 func Remove(name string) error {
+	rt.Touch(rt.FSGlobal)
 	name = clean(name)
 	if _, ok := files[name]; !ok {
 		return &PathError{Op: "remove", Path: name, Err: ErrNotExist}
@@ -341,6 +351,7 @@ func Remove(name string) error {
 
 //go:norace
 func RemoveAll(name string) error {
+	rt.Touch(rt.FSGlobal)
 	name = clean(name)
 	for p := range files {
 		if p == name || strings.HasPrefix(p, name+"/") {
@@ -353,6 +364,7 @@ func RemoveAll(name string) error {
 
 //go:norace
 func Stat(name string) (FileInfo, error) {
+	rt.Touch(rt.FSGlobal)
 	name = clean(name)
 	n, ok := files[name]
 	if !ok {
@@ -366,6 +378,7 @@ func Lstat(name string) (FileInfo, error) { return Stat(name) }
 
 //go:norace
 func ReadFile(name string) ([]byte, error) {
+	rt.Touch(rt.FSGlobal)
 	name = clean(name)
 	n, ok := files[name]
 	if !ok {
@@ -376,6 +389,7 @@ func ReadFile(name string) ([]byte, error) {
 
 //go:norace
 func WriteFile(name string, data []byte, perm FileMode) error {
+	rt.Touch(rt.FSGlobal)
 	f, err := OpenFile(name, O_WRONLY|O_CREATE|O_TRUNC, perm)
 	if err != nil {
 		return err
@@ -394,6 +408,7 @@ func TempDir() string                           { return "tmp" }
 // List returns the paths inside dir (non-recursive when the fs is flat), sorted.
 //go:norace
 func List(dir string) []string {
+	rt.Touch(rt.FSGlobal)
 	dir = clean(dir)
 	var out []string
 	for p := range files {
@@ -415,6 +430,7 @@ func List(dir string) []string {
 
 //go:norace
 func ReadDir(dir string) ([]DirEntry, error) {
+	rt.Touch(rt.FSGlobal)
 	var out []DirEntry
 	for _, p := range List(dir) {
 		out = append(out, MemEntry{N: base(p), S: int64(len(files[p].data))})
